@@ -10,6 +10,9 @@ Clauses (see notes/C06.md):
   user-override-builtin F every built-in key overridden by a user snippet (property and raw kind)
   builtin-keywords   F  every property snippet x every dash-free keyword it lists x lower/upper/mixed case x
                         `key:kw` / `key-kw` x every syntax x scope in {none, @@property}
+  history-independence B every key in sequences where it occurs several times in different forms (function keyword with
+                        arguments, bare keyword, bare key, typed values): as one `+`-joined abbreviation and as a
+                        history of calls sharing a `cache`; every occurrence equals the fresh single expansion
   user-tables        B  random user snippet tables: overriding and new keys, property and raw kinds
   user-case-keys     B  user keys that differ from another key only in letter case
 
@@ -256,6 +259,93 @@ def check_user_table(syntax, scope, user, probe_builtin):
     return None
 
 
+# ---- history independence -------------------------------------------------------------------
+# The statement has no "unless something else was expanded before": a key / a keyword typed in full selects its snippet /
+# keyword whatever preceded it -- an earlier property of the same `+`-joined abbreviation, or an earlier expand() call
+# sharing the `cache` dict.  Each occurrence must therefore equal what a fresh, cache-less, single expansion gives (and the
+# fresh forms `key`, `key:keyword` are judged against the statement by the clauses above).
+
+FUNC_ALT_RE = re.compile(r'([A-Za-z][A-Za-z0-9]*)\(.*\)')
+ARG_FORMS = ['2', '7, a']
+
+
+def function_names(values):
+    out = []
+    for v in values:
+        m = FUNC_ALT_RE.fullmatch(v)
+        if m and m.group(1) not in out:
+            out.append(m.group(1))
+    return out
+
+
+def history_sequences(key, body):
+    """(parts, joinable) -- lists of abbreviation parts in which the same key occurs several times in different forms;
+    joinable: the parts may also be written as one `+`-joined abbreviation.  (Not for raw keys with typed values: an
+    `@`-prefixed name that is not at the start of the abbreviation is read up to the next operator, `-foo` included --
+    a tokenizer rule outside this property -- so those forms are only used as separate calls.)"""
+    kind = classify(body)
+    if kind[0] == 'raw':
+        return [([key, key], True), ([key + '-foo', key], False), ([key, key + '-foo10', key], False)]
+    values = kind[2]
+    words, _ = keywords_of(values)
+    seqs = []
+    for f in function_names(values):
+        for args in ARG_FORMS:
+            seqs.append(['%s:%s(%s)' % (key, f, args), '%s:%s' % (key, f), key])            # keyword with arguments, bare keyword, bare key
+        seqs.append(['%s-%s(%s)' % (key, f, ARG_FORMS[0]), key, '%s:%s' % (key, f.upper())])  # ... bare key first, keyword in upper case
+        seqs.append([key, '%s:%s' % (key, f), '%s:%s(%s)' % (key, f, ARG_FORMS[1]), '%s:%s' % (key, f), key])
+    for w in words[:2]:
+        seqs.append(['%s:%s' % (key, w), key, '%s-%s' % (key, w.upper()), key])
+    seqs.append([key + '10', key, key + '#f-1.5', key])                                       # typed values, then the bare key
+    return [(q, True) for q in seqs]
+
+
+def check_history(syntax, key, user=None):
+    from emmet import expand
+    table, _, _ = _table(syntax, user)
+    fresh = {}
+
+    def reference(part):
+        if part not in fresh:
+            try:
+                fresh[part] = expand(part, _config(syntax, None, user))
+            except Exception:
+                fresh[part] = None          # a form that fails on its own is not this property's business (C07)
+        return fresh[part]
+
+    where = 'syntax=%s%s' % (syntax, ', user snippets %r' % (user,) if user else '')
+    for seq, joinable in history_sequences(key, table[key]):
+        refs = [reference(p) for p in seq]
+        if any(r is None for r in refs):
+            continue
+        # (a) one `+`-joined abbreviation, no cache
+        abbr = '+'.join(seq)
+        out = expand(abbr, _config(syntax, None, user)) if joinable else None
+        exp = '\n'.join(r for r in refs if r != '')
+        if joinable and out != exp:
+            lines = out.split('\n') if isinstance(out, str) else []
+            bad = [i for i, r in enumerate(refs) if i >= len(lines) or lines[i] != r]
+            hint = ''
+            if bad and len(lines) == len(refs):
+                hint = ': part %r gives %r here, but %r when expanded on its own' % (seq[bad[0]], lines[bad[0]], refs[bad[0]])
+            return 'expand(%r, %s)%s (whole output %r, expected the single expansions %r joined by newlines)' % (abbr, where, hint, out, refs)
+        # (b) a history of calls sharing one `cache`
+        cache = {}
+        for i, part in enumerate(seq):
+            out = expand(part, _config(syntax, None, user, cache))
+            if out != refs[i]:
+                return 'expand(%r, %s) = %r after the calls %r with the same `cache`, but %r in a fresh cache-less call' % (
+                    part, where, out, seq[:i], refs[i])
+    return None
+
+
+HISTORY_USER = [
+    {'zzfn': 'my-prop:foo(${1:a}, ${2:b})|bar(${1})|baz'},
+    {'trf': 'my-prop:url(${0})|scale(${1:x})|none'},
+    {'zzfn': 'my-prop:baz|fit(${1:w}, ${2:h})', 'zzraw': 'x { y: ${1}; ${0} }'},
+]
+
+
 # --------------------------------------------------------------------------------------------
 # generators
 # --------------------------------------------------------------------------------------------
@@ -385,6 +475,21 @@ def run(tier, seed):
                'a case is (syntax, key) with all keyword x case x form x scope expansions checked inside: the value must be the keyword '
                'as listed (a function name: `name(`...)', exhaustive=True)
     run_parallel(c, 'bounded.c06', 'check_keywords', ((s, k) for s in STYLESHEET_SYNTAXES for k in bk[s]), chunk=20)
+    out.append(c.done())
+
+    hsyn = ['css', 'stylus'] if quick else STYLESHEET_SYNTAXES
+    c = Clause('history-independence', 'B', 'every built-in key (and 3 fixed user tables with function keywords) in sequences where the same key '
+               'occurs several times in different forms',
+               '%d keys x syntaxes %r; per key: for every function keyword f it lists (names over letters and digits) '
+               '[key:f(args), key:f, key] for args in %r, [key-f(args), key, key:F], [key, key:f, key:f(args), key:f, key]; for its first two '
+               'word keywords [key:w, key, key-W, key]; [key10, key, key#f-1.5, key]; raw snippets [key, key] and, as separate calls only, '
+               '[key-foo, key], [key, key-foo10, key]'
+               % (nkeys, hsyn, ARG_FORMS),
+               'a case is (syntax, key[, user table]); each sequence is run (a) as one `+`-joined abbreviation without cache and (b) as a history '
+               'of expand() calls sharing one `cache` dict; every occurrence must equal the fresh cache-less single expansion of that part',
+               exhaustive=True)
+    run_parallel(c, 'bounded.c06', 'check_history', [(s, k) for s in hsyn for k in bk[s]] +
+                 [(s, k, u) for s in hsyn for u in HISTORY_USER for k in u], chunk=12)
     out.append(c.done())
 
     osyn = ['css'] if quick else STYLESHEET_SYNTAXES
